@@ -37,6 +37,7 @@ def cases(tier, seed):
                 cs.append({'scen': 'ad_grad', 's': dict(base, tracked=tr, api=api)})
     for sin, sout, rank, batch in [([2], [2], [1, 1], []), ([2, 2], [1, 2], [1, 2, 1], [2]), ([2, 1], [2, 2], [1, 2, 1], [])] + ([([2, 2, 2], [1, 2, 1], [1, 2, 2, 1], [2, 1])] if th else []):
         cs.append({'scen': 'ad_layer', 's': {'size_in': sin, 'size_out': sout, 'rank': rank, 'batch': batch}})
+        cs.append({'scen': 'ad_layer', 's': {'size_in': sin, 'size_out': sout, 'rank': rank, 'batch': batch, 'eval': True}})
     return cs
 
 
